@@ -74,6 +74,27 @@ def record_streams(addr):
     return out
 
 
+def record_ctx_worker(addr, ctx_id):
+    """the two framed messages a client writes to start a persistent worker inside context ctx_id (the context must exist)"""
+    from pyworkers import remote, remote_pickle
+    from pyworkers.persistent_remote import PersistentRemoteWorker
+    rec = []
+    orig = remote.send_msg
+
+    def spy(sock, msg, comment=None):
+        data = remote_pickle.dumps(msg)
+        rec.append(struct.pack('!I', len(data)) + data)
+        return orig(sock, msg, comment)
+    remote.send_msg = spy
+    try:
+        w = PersistentRemoteWorker(None, host=addr, context=ctx_id)
+        out = rec[:2]
+        w.wait(10)
+    finally:
+        remote.send_msg = orig
+    return out
+
+
 def raw_session(addr, data, end='fin', read_reply=False, timeout=3.0):
     """connect, write `data`, vanish (FIN or RST).  With read_reply the reply frame is awaited first."""
     s = socket.create_connection(addr, timeout=timeout)
